@@ -40,7 +40,8 @@ class T2(T0):
 
 
 TYPES = [T0, T1, T2]
-ANNOTS = ["plain", "optional", "pep604", "str", "str_optional", "str_local", "none_first", "union_none_first", "str_none_first"]
+ANNOTS = ["plain", "optional", "pep604", "str", "str_optional", "str_local", "none_first", "union_none_first", "str_none_first",
+          "optional_fwd", "union_fwd", "union_none_first_fwd"]
 STATES = ["static", "factory", "async_factory", "inherited", "missing"]
 
 
@@ -66,6 +67,12 @@ def cases(draw: Any, tier: str) -> dict:
         injected.append({"name": f"r{i}", "t": t, "rname": rname, "annot": annot,
                          "state": d.weighted([("static", 30), ("factory", 18), ("async_factory", 14), ("inherited", 18), ("missing", 20)]),
                          "kwonly": d.pct(60)})
+    if len(injected) >= 2 and negative is None and d.pct(15):
+        # one resource() marker object reused as the default of two parameters of different types
+        if injected[0]["t"] != injected[1]["t"] and not any(
+                (i["t"], i["rname"]) == (injected[1]["t"], injected[0]["rname"]) for i in injected[2:]):
+            injected[1]["rname"] = injected[0]["rname"]
+            injected[1]["share_marker_with"] = 0
     # at most one function-local type per case keeps the source simple
     seen_local = False
     for inj in injected:
@@ -83,7 +90,8 @@ def cases(draw: Any, tier: str) -> dict:
                 inj["annot"] = "str"
     return {"backend": draw(BACKEND), "sched_seed": draw(SEED), "is_async": d.bool(), "method": method, "negative": negative,
             "params": params, "args": args, "injected": injected,
-            "call": d.weighted([("same", 45), ("nested", 25), ("task", 20), ("none", 10)]), "second_call": d.pct(35)}
+            "call": d.weighted([("same", 38), ("nested", 22), ("task", 16), ("none", 8), ("component", 16)]), "second_call": d.pct(35),
+            "future_annotations": d.pct(35)}
 
 
 def strategy(prop: str, tier: str) -> st.SearchStrategy:
@@ -114,11 +122,18 @@ def _annot(inj: dict) -> str:
         return f"Union[None, {t}]"
     if a == "str_none_first":
         return f'"None | {t}"'
+    if a == "optional_fwd":  # a forward reference nested inside a typing construct (not a whole-string annotation)
+        return f'Optional["{t}"]'
+    if a == "union_fwd":
+        return f'Union["{t}", None]'
+    if a == "union_none_first_fwd":
+        return f'Union[None, "{t}"]'
     return '"LocalT"'
 
 
 def is_optional(inj: dict) -> bool:
-    return inj["annot"] in ("optional", "pep604", "str_optional", "none_first", "union_none_first", "str_none_first")
+    return inj["annot"] in ("optional", "pep604", "str_optional", "none_first", "union_none_first", "str_none_first",
+                            "optional_fwd", "union_fwd", "union_none_first_fwd")
 
 
 def source(case: dict, decorated: bool) -> str:
@@ -129,8 +144,11 @@ def source(case: dict, decorated: bool) -> str:
         s = p["name"] + (" = -1" if p["has_default"] else "")
         (pos_params if p["kind"] == "pos" else kw_params).append(s)
     inj_pos, inj_kw = [], []
+    shared = any("share_marker_with" in i for i in case["injected"])
     for k, inj in enumerate(case["injected"]):
         marker = f'resource("{inj["rname"]}")' if inj["rname"] != "default" else "resource()"
+        if shared and (k == 0 or inj.get("share_marker_with") == 0):
+            marker = "shared_marker"
         ann = f": {_annot(inj)}"
         if neg == "noannot" and k == 0:
             ann = ""
@@ -159,6 +177,9 @@ def source(case: dict, decorated: bool) -> str:
     body = f"marker()\nreturn {ret}"
     lines = ["def make(inject, resource, marker, T0, T1, T2, Optional, Union):", "    class LocalT:", "        def __init__(self, tag):",
              "            self.tag = tag"]
+    if shared:
+        rn = case["injected"][0]["rname"]
+        lines.append("    shared_marker = " + (f'resource("{rn}")' if rn != "default" else "resource()"))
     if case["method"]:
         lines.append("    class Holder:")
         for ln in (deco + defn).splitlines():
@@ -172,7 +193,8 @@ def source(case: dict, decorated: bool) -> str:
         for ln in body.splitlines():
             lines.append("        " + ln)
         lines.append("    return func, LocalT")
-    return "\n".join(lines) + "\n"
+    head = "from __future__ import annotations\n" if case.get("future_annotations") else ""
+    return head + "\n".join(lines) + "\n"
 
 
 def compile_fn(case: dict, decorated: bool, marker: Any) -> tuple:
@@ -180,7 +202,9 @@ def compile_fn(case: dict, decorated: bool, marker: Any) -> tuple:
 
     src = source(case, decorated)
     ns: dict[str, Any] = {"T0": T0, "T1": T1, "T2": T2, "Optional": Optional, "Union": Union}
-    exec(compile(src, "<generated>", "exec"), ns)
+    # dont_inherit: this module's own `from __future__ import annotations` must not leak into the
+    # generated code (the case decides whether its annotations are evaluated or kept as strings)
+    exec(compile(src, "<generated>", "exec", dont_inherit=True), ns)
     return ns["make"](inject, resource, marker, T0, T1, T2, Optional, Union)
 
 
@@ -323,6 +347,49 @@ class OneRun:
 
         if case["call"] == "none":
             self.result = await call()
+            return
+        if case["call"] == "component":
+            # the function is called from a component's start() while a sibling publishes, one tick
+            # later, what is still missing: explicit get_resource() calls WAIT there
+            from asphalt.core import Component, add_resource, start_component
+
+            run = self
+            async with Context() as parent:
+                ensure_compiled()
+                cm = parent.resource_added.stream_events(max_queue_size=1000)
+                it = await cm.__aenter__()
+                populate(parent, "parent")
+                populate(parent, "call")
+
+                class Caller(Component):
+                    async def start(self) -> None:
+                        run.result = await call()
+
+                class Publisher(Component):
+                    async def start(self) -> None:
+                        await anyio.sleep(1)
+                        for inj in case["injected"]:
+                            if inj["state"] == "missing":
+                                add_resource(new(inj, "late"), inj["rname"], types=[typ(inj)])
+
+                class Root(Component):
+                    def __init__(self) -> None:
+                        self.add_component("caller", Caller)
+                        self.add_component("publisher", Publisher)
+
+                try:
+                    await start_component(Root, timeout=50)
+                except Exception as exc:
+                    if self.result is None:
+                        self.result = ("raise", "startup:" + type(exc).__name__)
+                sentinel = ResourceEvent((), "__s__", None, False)
+                parent.resource_added.dispatch(sentinel)
+                while True:
+                    ev = await it.__anext__()
+                    if ev is sentinel:
+                        break
+                    self.events.append((tuple(sorted(t.__name__ for t in ev.resource_types)), ev.resource_name, bool(ev.is_factory)))
+                await cm.__aexit__(None, None, None)
             return
         async with Context() as parent:
             ensure_compiled()
